@@ -56,10 +56,14 @@ Next == FALSE /\ UNCHANGED <<pc, pd>>
 Expected == { k \in Cabs : SatC(pc, k) /\ SatD(pd, k) }
 \* select(Container)(...) on the container attribute reports, per matched cabinet, that cabinet's container
 SelContainer == { <<k, KCont[k]>> : k \in Expected }
+\* select(Drawer)(...) directly on the collection attribute reports, per matched cabinet, each of its drawers that satisfies the
+\* nested pattern (the collection is flattened: one row per matching element)
+DrawerOK(p, d) == (p[2] = "*" \/ NameOf[DHandle[d]] = p[2]) /\ (p[3] = "*" \/ NameOf[DCont[d]] = p[3])
+SelDrawer == IF pd[1] = "match" THEN { kd \in Expected \X Drws : kd[2] \in KDrws[kd[1]] /\ DrawerOK(pd, kd[2]) } ELSE {}
 \* sanity of the reference: constraining more never matches more
 Monotone == /\ Expected \subseteq { k \in Cabs : SatC(pc, k) }
             /\ Expected \subseteq { k \in Cabs : SatD(pd, k) }
 Expected2 == { k \in Cabs : SatC(pc, k) /\ SatDW(pd, k, KDrws2) }
-Emit == PrintT(ToJson([pc |-> pc, pd |-> pd, exp |-> Expected, selc |-> SelContainer, exp2 |-> Expected2,
+Emit == PrintT(ToJson([pc |-> pc, pd |-> pd, exp |-> Expected, selc |-> SelContainer, exp2 |-> Expected2, seld |-> SelDrawer,
                        fruit |-> IF pc = <<"none">> /\ pd = <<"lit", "d1">> THEN { [p |-> p, exp |-> FruitExpected[p]] : p \in PF } ELSE {}]))
 ====
